@@ -2,8 +2,12 @@
 From Coq Require Import ZArith NArith List String Ascii Bool Lia.
 Require Import QV.Common.Outcome QV.Common.PyAscii.
 Require Import QV.Gen.PTable QV.Gen.PeriodGroup QV.Gen.Srd144 QV.Model.PeriodicTable.
+Require Import QV.Proofs.PeriodicTableF1 QV.Proofs.PeriodicTableF2.
 Import ListNotations.
 Open Scope Z_scope.
+
+(** the big tables are only ever evaluated by vm_compute; keep tactics from unfolding them *)
+Opaque pt_Z pt_E pt_name pt_EE pt_EA pt_A pt_mass pt_mass_str srd_elements srd_names srd_longest_lived.
 
 (* ------------------------------------------------------------------------------------------ *)
 (** * generic facts *)
@@ -117,7 +121,7 @@ Proof.
   unfold resolve_eliso. destruct x as [z|s]; [apply step2_sound|].
   destruct (eliso2mass (capitalize s)) as [m|] eqn:E; [|apply step2_sound].
   intro H; inversion H; subst. left. exists s; repeat split.
-  apply sdict_sound in E. now apply in_combine_l in E.
+  unfold eliso2mass in E. apply (sdict_sound pt_EA pt_mass_str) in E. exact (in_combine_l _ _ _ _ E).
 Qed.
 
 Lemma step3_closed x e : step3 x = Err e -> e = NotAnElement.
@@ -198,7 +202,6 @@ Qed.
 
 Definition elem_rows : list (Z * string * string) := combine (combine pt_Z pt_E) pt_name.
 
-Definition res_is (x : pyval) (e : string) : bool := outcome_eqb String.eqb (resolve_eliso x) (Ok e).
 
 Definition row_alias_ok (r : Z * string * string) : bool :=
   let '(z, e, n) := r in
@@ -206,7 +209,7 @@ Definition row_alias_ok (r : Z * string * string) : bool :=
   && str_mem e pt_E.
 
 Lemma all_rows_alias_ok : forallb row_alias_ok elem_rows = true.
-Proof. vm_compute. reflexivity. Qed.
+Proof. vm_cast_no_check (@eq_refl bool true). Qed.
 
 Lemma res_is_true x e : res_is x e = true -> resolve_eliso x = Ok e.
 Proof. apply outcome_eqb_ok, string_eqb_true. Qed.
@@ -227,23 +230,14 @@ Proof.
   apply str_mem_In in I. rewrite I. now rewrite andb_false_r.
 Qed.
 
-(** every nuclide label of the table resolves to itself *)
-Lemma all_labels_self : forallb (fun ea => res_is (PStr ea) ea) pt_EA = true.
-Proof. vm_compute. reflexivity. Qed.
 
 Lemma label_self ea : In ea pt_EA -> resolve_eliso (PStr ea) = Ok ea.
 Proof.
   intro H. pose proof all_labels_self as A. rewrite forallb_forall in A. now apply res_is_true, A.
 Qed.
 
-(** table consistency: every resolved key has all its data (no KeyError can escape) *)
-Definition key_total (k : string) : bool :=
-  is_ok (key_Z k) && is_ok (key_E k) && is_ok (key_name k) && is_ok (key_A k) && is_ok (key_mass_dec k).
-
-Lemma all_keys_total : forallb key_total pt_EA = true.
-Proof. vm_compute. reflexivity. Qed.
 Lemma elements_are_keys : forallb (fun e => str_mem e pt_EA) pt_E = true.
-Proof. vm_compute. reflexivity. Qed.
+Proof. vm_cast_no_check (@eq_refl bool true). Qed.
 
 Lemma justified_key x k : justified x k -> In k pt_EA.
 Proof.
@@ -317,7 +311,7 @@ Definition pg_ok (z : Z) : bool :=
   optz_eqb (gen_period z) (Some (ref_period z)) && optz_eqb (gen_group z) (ref_group z).
 
 Lemma pg_all : forallb pg_ok (zrange 1 118) = true.
-Proof. vm_compute. reflexivity. Qed.
+Proof. vm_cast_no_check (@eq_refl bool true). Qed.
 
 Lemma period_group_ref z : 1 <= z <= 118 -> gen_period z = Some (ref_period z) /\ gen_group z = ref_group z.
 Proof.
@@ -328,7 +322,7 @@ Proof.
 Qed.
 
 Lemma table_Z_range : forallb (fun z => (0 <=? z) && (z <=? 118)) pt_Z = true.
-Proof. vm_compute. reflexivity. Qed.
+Proof. vm_cast_no_check (@eq_refl bool true). Qed.
 
 Lemma period_group_accessor x z :
   to_Z x false = Ok z -> 1 <= z ->
@@ -356,9 +350,6 @@ Qed.
 (* ------------------------------------------------------------------------------------------ *)
 (** * faithfulness to NIST SRD-144 (raw JSON), over the whole table *)
 
-(** got = Ok w  and  want = Some w *)
-Definition agrees {A} (eqb : A -> A -> bool) (got : outcome A) (want : option A) : bool :=
-  match got, want with Ok g, Some w => eqb g w | _, _ => false end.
 Lemma agrees_true {A} (eqb : A -> A -> bool) (sound : forall a b, eqb a b = true -> a = b) got want :
   agrees eqb got want = true -> exists w, want = Some w /\ got = Ok w.
 Proof.
@@ -366,18 +357,6 @@ Proof.
   intro H. apply sound in H. subst. eauto.
 Qed.
 
-Definition faith_iso (e : srd_elem) (i : srd_iso) (lbl : string) : bool :=
-  let o := observe (PStr lbl) in
-  agrees Z.eqb (o_ZF o) (e_Z e) && agrees String.eqb (o_EF o) (Some (e_sym e)) &&
-  agrees String.eqb (o_nameF o) (e_name e) && agrees Z.eqb (o_A o) (i_A i) &&
-  agrees pair_eqb (o_mass o) (i_mass i) &&
-  agrees String.eqb (to_mass_str (PStr lbl)) (Some (i_mass_str i)).
-
-Definition faith_elem_isos (e : srd_elem) : bool :=
-  forallb (fun i => forallb (faith_iso e i) (i_labels (e_sym e) i)) (e_isos e).
-
-Lemma all_isotopes_faithful : forallb faith_elem_isos srd_elements = true.
-Proof. vm_compute. reflexivity. Qed.
 
 Lemma isotope_faithful e i lbl :
   In e srd_elements -> In i (e_isos e) -> In lbl (i_labels (e_sym e) i) ->
@@ -416,7 +395,7 @@ Definition faith_elem (e : srd_elem) : bool :=
   end.
 
 Lemma all_elements_faithful : forallb faith_elem srd_elements = true.
-Proof. vm_compute. reflexivity. Qed.
+Proof. vm_cast_no_check (@eq_refl bool true). Qed.
 
 Lemma element_faithful e :
   In e srd_elements ->
@@ -460,7 +439,7 @@ Lemma element_columns_exact :
 Proof. vm_compute. repeat split. Qed.
 
 Lemma keys_only_srd : forallb (fun k => str_mem k ("X" :: "X0" :: srd_labels)%string) pt_EA = true.
-Proof. vm_compute. reflexivity. Qed.
+Proof. vm_cast_no_check (@eq_refl bool true). Qed.
 
 Lemma key_is_srd k :
   In k pt_EA ->
@@ -494,4 +473,52 @@ Lemma build_aliases_systematic :
                      && outcome_eqb Z.eqb (to_Z (PStr (fst kv)) false) (to_Z (PStr (snd kv)) false)
                      && is_ok (to_A (PStr (fst kv))))
           srd_aliases = true.
-Proof. vm_compute. reflexivity. Qed.
+Proof. vm_cast_no_check (@eq_refl bool true). Qed.
+
+(* ------------------------------------------------------------------------------------------ *)
+(** * combined statements used by Props/C01.v *)
+
+(** all element-level names of a row, in any letter case, strict or not, resolve to the row's symbol,
+    and every accessor answers the same for all of them *)
+Lemma alias_invariance z e n s b :
+  In (z, e, n) elem_rows ->
+  same_mod_case s (str_of_Z z) \/ same_mod_case s e \/ same_mod_case s n ->
+  resolve (PInt z) b = Ok e /\ resolve (PStr s) b = Ok e /\ observe_spec (PStr s) = observe_spec (PInt z).
+Proof.
+  intros H C. destruct (row_alias _ _ _ H) as [R1 [R2 [R3 [R4 I]]]].
+  assert (RS : resolve_eliso (PStr s) = Ok e).
+  { destruct C as [C|[C|C]]; rewrite (resolve_eliso_mod_case _ _ C); assumption. }
+  repeat split.
+  - now apply resolve_of_eliso.
+  - now apply resolve_of_eliso.
+  - apply observe_spec_of_resolve. now rewrite RS, R1.
+Qed.
+
+Lemma label_any_case ea s : In ea pt_EA -> same_mod_case s ea -> resolve (PStr s) false = Ok ea.
+Proof.
+  intros H C. unfold resolve. rewrite (resolve_eliso_mod_case _ _ C), (label_self _ H). reflexivity.
+Qed.
+
+Lemma strict_rejects_nuclide ea s :
+  In ea pt_EA -> ~ In ea pt_E -> same_mod_case s ea -> resolve (PStr s) true = Err NotAnElement.
+Proof.
+  intros H N C. unfold resolve. rewrite (resolve_eliso_mod_case _ _ C), (label_self _ H). cbn [obind].
+  unfold strict_filter. cbn [andb].
+  destruct (str_mem ea pt_E) eqn:M; [apply str_mem_In in M; contradiction|reflexivity].
+Qed.
+
+(** isotope faithfulness for any letter case of the label *)
+Lemma isotope_faithful_any_case e i lbl s :
+  In e srd_elements -> In i (e_isos e) -> In lbl (i_labels (e_sym e) i) -> same_mod_case s lbl ->
+  exists z name a m,
+    e_Z e = Some z /\ e_name e = Some name /\ i_A i = Some a /\ i_mass i = Some m /\
+    to_Z (PStr s) false = Ok z /\ to_E (PStr s) false = Ok (e_sym e) /\
+    to_element (PStr s) false = Ok name /\ to_A (PStr s) = Ok a /\
+    to_mass_dec (PStr s) = Ok m /\ to_mass_str (PStr s) = Ok (i_mass_str i).
+Proof.
+  intros He Hi Hl C.
+  destruct (isotope_faithful e i lbl He Hi Hl) as [z [name [a [m H]]]].
+  exists z, name, a, m.
+  pose proof (resolve_eliso_mod_case _ _ C) as R.
+  unfold to_Z, to_E, to_element, to_A, to_mass_dec, to_mass_str, resolve in *. rewrite R. exact H.
+Qed.
